@@ -44,7 +44,7 @@ def pred_ranges(name):
     """ranges (within UNIVERSE) of code points c with getattr(chr(c), name)() true"""
     r = _PRED_CACHE.get(name)
     if r is None:
-        r = _ranges([cp for cp in UNIVERSE if getattr(chr(cp), name)()])
+        r = tuple(_ranges([cp for cp in UNIVERSE if getattr(chr(cp), name)()]))
         _PRED_CACHE[name] = r
     return r
 
@@ -70,27 +70,53 @@ def map_table(name):
     return t
 
 
+_IV = {}
+
+
+def K(n):
+    """cached z3 integer constant (IntVal construction dominates z3py's cost otherwise)"""
+    v = _IV.get(n)
+    if v is None:
+        v = _IV[n] = z3.IntVal(n)
+    return v
+
+
+_RANGE_CACHE = {}   # (ast id, ranges) -> (term kept alive, formula)
+_EQ_CACHE = {}
+
+
 def in_ranges(c, ranges):
     """formula-or-bool: code point c lies in one of the ranges"""
     if isinstance(c, int):
         return any(lo <= c <= hi for lo, hi in ranges)
     if not ranges:
         return False
-    return z3.Or(*[(c == lo) if lo == hi else z3.And(c >= lo, c <= hi) for lo, hi in ranges])
+    key = (c.get_id(), tuple(ranges))
+    hit = _RANGE_CACHE.get(key)
+    if hit is not None:
+        return hit[1]
+    f = z3.Or(*[(c == K(lo)) if lo == hi else z3.And(c >= K(lo), c <= K(hi)) for lo, hi in ranges])
+    _RANGE_CACHE[key] = (c, f)
+    return f
 
 
 def cp_pred(c, name):
     if isinstance(c, int):
         return getattr(chr(c), name)()
-    return in_ranges(c, pred_ranges(name))
+    return in_ranges(c, tuple(pred_ranges(name)))
 
 
 def cp_map(c, name):
     if isinstance(c, int):
         return ord(getattr(chr(c), name)())
+    key = (c.get_id(), "map", name)
+    hit = _EQ_CACHE.get(key)
+    if hit is not None:
+        return hit[1]
     e = c
     for lo, hi, d in map_table(name):
-        e = z3.If(z3.And(c >= lo, c <= hi), c + d, e)
+        e = z3.If(z3.And(c >= K(lo), c <= K(hi)), c + K(d), e)
+    _EQ_CACHE[key] = (c, e)
     return e
 
 
@@ -142,9 +168,22 @@ def lazy(f):
 
 
 def ceq(a, b):
-    if isinstance(a, int) and isinstance(b, int):
+    ia, ib = isinstance(a, int), isinstance(b, int)
+    if ia and ib:
         return a == b
-    return a == b
+    if ia:
+        a, b, ib = b, a, True
+    if ib:
+        key = (a.get_id(), b)
+        hit = _EQ_CACHE.get(key)
+        if hit is None:
+            hit = _EQ_CACHE[key] = (a, a == K(b))
+        return hit[1]
+    key = (a.get_id(), "t", b.get_id())
+    hit = _EQ_CACHE.get(key)
+    if hit is None:
+        hit = _EQ_CACHE[key] = (a, b, a == b)
+    return hit[-1]
 
 
 def cps_of(x):
@@ -745,9 +784,15 @@ def lift(x):
     return SStr._raw(tuple(map(ord, x)))
 
 
+_VAR_CACHE = {}
+
+
 def fresh_char(en, name, alphabet=None):
     """fresh symbolic code point constrained to `alphabet` (list of (lo,hi) or a string of allowed chars); default UNIVERSE"""
-    v = z3.Int(en._fresh_name(name))
+    nm = en._fresh_name(name)
+    v = _VAR_CACHE.get(nm)
+    if v is None:
+        v = _VAR_CACHE[nm] = z3.Int(nm)
     if alphabet is None:
         rs = UNIVERSE_RANGES
     elif isinstance(alphabet, str):
@@ -757,7 +802,7 @@ def fresh_char(en, name, alphabet=None):
         rs = _ranges(map(ord, alphabet))
     else:
         rs = alphabet
-    en.solver.add(in_ranges(v, rs))
+    en.solver.add(in_ranges(v, tuple(rs)))
     return v
 
 
